@@ -1,5 +1,5 @@
 (* Correspondence + property predicate for C20 *)
-From Fnd Require Export Base.Prelude Model.Paging.
+From Fnd Require Export Base.Prelude Model.Paging Proofs.PagingProofs.
 
 (* ledger entries: key bytes, and the id bytes of the record stored there ([] for keys that
    are not origin-side transfer records) *)
@@ -20,12 +20,12 @@ Global Instance qobs_eq_dec : EqDecision qobs.
 Proof. solve_decision. Defined.
 
 Definition m_query (l : list (list N * list N)) (q : Z * list N) : qobs :=
-  match query l (fst q) (snd q) with
+  match query l (clamp l (fst q)) (snd q) with   (* = query l (fst q) (snd q): C20_size_beyond_ledger *)
   | inl e => QErr e
   | inr (items, next) => QOk (List.map snd items) next
   end.
 Definition m_walk (l : list (list N * list N)) (size : Z) : option (list (list N)) :=
-  match all_pages (S (length l)) l size [] with
+  match all_pages (S (length l)) l (clamp l size) [] with
   | Some items => Some (List.map snd items)
   | None => None
   end.
